@@ -12,7 +12,7 @@ export GOFLAGS=-mod=mod GOPROXY=off GOSUMDB=off GOTOOLCHAIN=local; unset GOWORK
 [ -n "${SKIP_SUITE:-}" ] || (cd "$d/repo" && go test -vet=off -count=1 ./... > "$d/suite.log" 2>&1) || { echo "SUITE FAILS (not behaviour-preserving?)"; tail -5 "$d/suite.log"; }
 for p in ${PROPS:-C01 C02 C03 C04 C05 C06 C07 C08 C09 C10 C11 C12 C13 C14 C15 C16 C17 C18 C19 C20}; do
   mkdir -p "$d/verif-$p"; cp "$d/verif/known_findings.json" "$d/verif-$p/" 2>/dev/null
-  ( /verif/bin/verifchk -prop "$p" -repo "$d/repo" -verif "$d/verif-$p" > "$d/$p.log" 2>&1; echo $? > "$d/$p.rc" ) &
+  ( ${VERIFCHK:-/verif/bin/verifchk} -prop "$p" -repo "$d/repo" -verif "$d/verif-$p" > "$d/$p.log" 2>&1; echo $? > "$d/$p.rc" ) &
   while [ $(jobs -r | wc -l) -ge 8 ]; do sleep 0.2; done
 done
 wait
